@@ -3,6 +3,7 @@
 import json, os, re
 V = os.path.dirname(os.path.dirname(os.path.abspath(__file__)))
 rows = []
+IDX = json.load(open(os.path.join(V, 'lib', 'harness_index.json')))
 for sid in sorted(os.listdir(os.path.join(V, 'seeded'))):
     d = os.path.join(V, 'seeded', sid)
     if not os.path.isdir(d): continue
@@ -20,6 +21,12 @@ for sid in sorted(os.listdir(os.path.join(V, 'seeded'))):
             h = re.search(r'harness=(\S+)', l)
             obl.append(m.group(1) + (' (' + h.group(1) + ')' if h else ' (verus)') + (' [replayed]' if 'no-failing-input-found' not in l else ' [no-failing-input-found]'))
     verdict = {1: 'caught', 0: 'MISSED', 2: 'undecided'}.get(r.get('exit'), '?')
+    if verdict == 'caught' and res.get('tier') == 'quick':
+        # cross-check against the registered index: at least one of the failing units must be in the quick tier
+        hs = [re.search(r'harness=(\S+)', l) for l in r.get('lines', []) if l.startswith('VIOLATION')]
+        inq = [(h is None) or IDX.get(h.group(1), {}).get('tier') == 'quick' for h in hs]
+        if not any(inq):
+            verdict = 'caught by a harness now in the thorough tier'
     rows.append((sid, meta['property'], (meta.get('what') or meta.get('summary',''))[:150], okc, verdict + ' (' + res.get('tier', '') + ')', '; '.join(obl[:3]) or '; '.join(x[:120] for x in r.get('lines', [])[:1])))
 print('| seeded change | prop | what it does | confirmed | outcome | failing obligation(s) |')
 print('|---|---|---|---|---|---|')
